@@ -4,9 +4,14 @@ import json, os
 HERE = os.path.dirname(os.path.dirname(os.path.abspath(__file__)))
 
 HOOK_COMMITS = ["2cbbdff"]
+FIX_COMMITS = ["98bc2de", "ed106f3", "491bd24"]
 
 CHECKS = {
  # id: (engine, technique, level text, level note, design ref, has_thorough)
+ "C01": ("rsx", "source-level symbolic execution of resolve_route and all Operation::call bodies; z3 decides routing over all method/path-kind/flag/header combinations against the Smithy model; witnesses and counterexamples replayed on the real build",
+         "every explored path of the real router (all 2^n query-flag/header subsets symbolically) is compared with the operation the API model assigns to the request shape; each Operation::call is shown to invoke exactly its own backend method once after decoding; one solver witness per router path and one literal request per operation are replayed through S3Service::call",
+         "trusts the rsx executor for the closed idiom set (validated by per-path witness replay), the primitive catalogue listed in the evidence, and the leaf contract of OrderedQs/HeaderMap lookups; query values are abstract except the two value tests of the router",
+         "DESIGN.md 5/C01", False),
  "C14": ("kani", "bounded model checking of the compiled code (Kani/CBMC, SAT) with native counterexample playback",
          "Range::check is decided for every Range value and every u64 length (no bound); Range::parse for every 7-bit header with a tail of up to 8 bytes after \"bytes=\"; results are bounded symbolic verdicts, not proofs beyond the bounds",
          "trusts Kani/CBMC's model of Rust and the reference interval/grammar written from RFC 9110 in the harness; timestamps, copy sources and content types are covered by further harnesses as listed in the evidence",
